@@ -44,7 +44,13 @@ async def main():
     await asyncio.sleep(0)
     wire = 'é'.encode('utf-8')                                     # 2 bytes, split across two DATA packets
     deliver(wire[:1])
-    got = await asyncio.wait_for(task, 1)
+    try:
+        got = await asyncio.wait_for(asyncio.shield(task), 0.3)
+    except asyncio.TimeoutError:
+        deliver(wire[1:])
+        print('read(100) kept waiting for the rest of the character and then returned', repr(await task))
+        print('not reproduced (fixed tree)')
+        return
     print('read(100) returned', repr(got), '| eof received:', sess._eof_received, '| buffer:', sess._recv_buf[None])
     deliver(wire[1:])
     print('next read returns', repr(await reader.read(100)))
